@@ -78,7 +78,7 @@ partial def parseTree : List String → Option (T × List String)
 
 open Cpf.Scan in
 /-- flat attribute view of the entities produced at node `n` (kind-specific), values hex-encoded -/
-def attrFields (n : T) (prev : Option T) (src : Bytes) (kind : String) : List (String × String) :=
+def attrFields (sigs : List (Bytes × Nat)) (n : T) (prev : Option T) (src : Bytes) (kind : String) : List (String × String) :=
   let s (b : Bytes) : String := "s:" ++ tohex b
   let l (bs : List Bytes) : String := "l:" ++ ",".intercalate (bs.map tohex)
   let o (ob : Option Bytes) : String := match ob with | some b => "s:" ++ tohex b | none => "n"
@@ -87,7 +87,8 @@ def attrFields (n : T) (prev : Option T) (src : Bytes) (kind : String) : List (S
   if kind = "method_declaration" then
     let a := methodAttrs n src
     [("name", s a.name), ("modifier", s a.modifier), ("returnType", s a.returnType), ("argTypes", l a.argTypes),
-     ("argValues", l a.argValues), ("throws", l a.throws), ("annotations", l a.annotations)]
+     ("argValues", l a.argValues), ("throws", l a.throws), ("annotations", l a.annotations),
+     ("hasAccess", s (str (if hasAccess sigs a.name a.argTypes.length then "true" else "false")))]
     ++ (match javadocOf prev src with | some ts => tags ts | none => [("tags", "n")])
   else if kind = "class_declaration" then
     let a := classAttrs n src
@@ -121,17 +122,17 @@ def attrFields (n : T) (prev : Option T) (src : Bytes) (kind : String) : List (S
   else []
 
 open Cpf.Scan in
-partial def attrWalk (src file : Bytes) (n : T) (prev : Option T) : List String :=
+partial def attrWalk (sigs : List (Bytes × Nat)) (src file : Bytes) (n : T) (prev : Option T) : List String :=
   let here :=
     match emitAt n src file with
     | .ok es => es.flatMap (fun e =>
-        let fs := attrFields n prev src e.kind
+        let fs := attrFields sigs n prev src e.kind
         [tohex e.pre, toString fs.length] ++ fs.flatMap (fun p => [p.1, p.2]))
     | _ => []
   let rec kids (cs : List T) (p : Option T) : List String :=
     match cs with
     | [] => []
-    | c :: rest => attrWalk src file c p ++ kids rest (some c)
+    | c :: rest => attrWalk sigs src file c p ++ kids rest (some c)
   here ++ kids n.children none
 
 /-- fields: per rule: text, then `fail` or `ok n (file line)*` -/
@@ -197,7 +198,7 @@ def handle (fields : List String) : List String :=
   | "scan-attrs" :: file :: srcHex :: tree =>
       match parseTree tree with
       | none => ["bad-tree"]
-      | some (t, _) => "ok" :: attrWalk (unhex srcHex) (Cpf.Scan.str file) t none
+      | some (t, _) => "ok" :: attrWalk (Cpf.Scan.callSigs (unhex srcHex) t) (unhex srcHex) (Cpf.Scan.str file) t none
   | ["rulefile", text] =>
       let r := Cpf.Rules.ciParse text.toList
       [r.id, r.description, r.severity, r.impact, r.provider, r.query].map String.ofList
